@@ -152,7 +152,14 @@ class TypeTable:
         text = '\n'.join(lines[line - 1:line + 12])
         text = text[col - 1:]
         res = (None, None)
-        if text.startswith('impl'):
+        if text.startswith('#[ext'):
+            # `extend` crate: `#[ext] pub impl TYPE { .. }` generates `trait <TYPE letters>Ext` and `impl .. for TYPE`
+            rest = '\n'.join(lines[line - 1:line + 6])
+            m = re.search(r'\bimpl\s*(<[^>]*>\s*)?([^{]+?)\s*\{', rest[rest.index(']') + 1:])
+            if m:
+                ty = m.group(2).strip()
+                res = (re.sub(r'[^A-Za-z0-9]', '', ty) + 'Ext', head(ty))
+        elif text.startswith('impl'):
             hdr = text.split('{', 1)[0]
             hdr = hdr.split(' where ')[0].split('\nwhere')[0]
             hdr = hdr[4:].strip()
